@@ -293,3 +293,19 @@ func TestC13Sim(t *testing.T) {
 		},
 	})
 }
+
+func TestC05SimReload(t *testing.T) {
+	runSimCheck(t, simCheck{
+		Property: "C05", Name: "C05SimReload",
+		Rule:   "as C05Sim, plus config reloads (a new dispatcher loads the provider's alerts, the notification log persists): a resolved alert the receiver was told is firing must still be reported resolved by the new dispatcher as long as the provider has not collected it. Non-trivial: a reload happened while some alert the receiver had been told about was resolved or resolving, and >=1 resolved obligation was evaluated.",
+		Params: sim.GenParams{Faults: true, Gets: true, Flap: true, Reload: true},
+		NonTrivial: func(st sim.Stats, sc *sim.Scenario, tr *sim.Trace) bool {
+			for _, s := range sc.Steps {
+				if s.Op == "reload" {
+					return st.ResolvedObligations > 0
+				}
+			}
+			return false
+		},
+	})
+}
